@@ -324,6 +324,11 @@ func runGet(c Case) (o hx.Outcome) {
 	}
 
 	bad, kind, detail := applyCorr(good, lf.unc, c.Corr, data, other, c.Backend.Enc)
+	if tooBig(bad, lf, c.Backend) {
+		o.Class("skipped:header-declares>16MiB")
+		o.Desc = map[string]any{"mode": mGet, "skipped": "poisoned object announces a content size above 16 MiB", "corruption": kind, "what": detail}
+		return o
+	}
 	lf.plant(id, bad)
 	changed := !bytes.Equal(bad, good)
 	effective := changed && !decodesTo(bad, lf.unc, data)
@@ -457,6 +462,17 @@ func runGet(c Case) (o hx.Outcome) {
 		"calls": strings.Join(results, ","), "digest": c.Digest, "effective": effective}
 	o.Key = fmt.Sprintf("get/%s/%s/%s/%s/%s", lf.kind, fmtn, kind, st.shapeString(), c.Digest)
 	return o
+}
+
+// tooBig: the poisoned object would be handed to the zstd decoder with a header announcing
+// more than maxDeclared bytes.
+func tooBig(bad []byte, lf *leaf, b Backend) bool {
+	if declaredSize(bad) <= maxDeclared {
+		return false
+	}
+	// an uncompressed slot is decoded only when the HTTP handler or the protocol server
+	// re-compress it for the wire - never; the bytes are data there
+	return !lf.unc
 }
 
 // ---------------------------------------------------------------- spec
